@@ -15,6 +15,8 @@ def make_source(spec):
         return simsched.RandomSource(spec.get("seed", 0), spec.get("p", 0.15))
     if k == "hot":
         return simsched.HotRandom(spec.get("seed", 0), spec.get("p_hot", 0.3), spec.get("p_cold", 0.01))
+    if k == "stall":
+        return simsched.Stall(spec.get("seed", 0), spec.get("stalls", 1), spec.get("est_hot", 80), spec.get("max_dur", 200), spec.get("p", 0.05))
     if k == "pct":
         return simsched.PCT(spec.get("seed", 0), spec.get("depth", 2), spec.get("est", 400))
     if k == "replay":
@@ -35,4 +37,6 @@ def schedule_strategy(max_gap=120, max_preempts=4):
                     st.sampled_from([100, 300, 800]))
     hot = st.builds(lambda s, ph, pc: {"kind": "hot", "seed": s, "p_hot": ph, "p_cold": pc}, st.integers(0, 10 ** 9),
                     st.sampled_from([0.15, 0.3, 0.5]), st.sampled_from([0.0, 0.01, 0.03]))
-    return st.one_of(sparse, rnd, pct, hot, hot)
+    stall = st.builds(lambda s, n, e, d: {"kind": "stall", "seed": s, "stalls": n, "est_hot": e, "max_dur": d}, st.integers(0, 10 ** 9),
+                      st.sampled_from([1, 1, 2]), st.sampled_from([20, 40, 80, 160]), st.sampled_from([60, 200, 400]))
+    return st.one_of(sparse, rnd, pct, hot, hot, stall)
